@@ -16,7 +16,8 @@ GS('dtc.__sexy_to_daisy', 'dt-core', '__sexy_to_daisy', P11, [('neg', 'in_sx < 0
   solvers=['cadical'], timeout=1500, sweep=SW)
 ATYPS = ('DT_YMD', 'DT_YD', 'DT_YWD', 'DT_DAISY', 'DT_LDN', 'DT_MDN')
 for t in ATYPS:
-    G('dtc.__to_unix_epoch.' + t[3:], 'dt-core', '__to_unix_epoch', P11, ins=DT_IN, fix={'in_typ': t}, setup=DT_SET, call='__to_unix_epoch(d)', ret='dt_ssexy_t',
+    if t != 'DT_YWD':
+      G('dtc.__to_unix_epoch.' + t[3:], 'dt-core', '__to_unix_epoch', P11, ins=DT_IN, fix={'in_typ': t}, setup=DT_SET, call='__to_unix_epoch(d)', ret='dt_ssexy_t',
       replace=['dt_conv_to_daisy', 'dt_get_base/UNREACH_dt_get_base'], solvers=SV, sweep=SW)
     G('dtc.dt_dtadd.hms.' + t[3:], 'dt-core', 'dt_dtadd', P11, ins=DT_IN + [(U, 'in_dt'), ('long long', 'in_dv')], fix={'in_typ': t},
       setup=DT_SET + ' struct dt_dtdur_s dur = {(dt_dtdurtyp_t)DT_DURUNK}; dur.durtyp = (dt_dtdurtyp_t)in_dt; dur.dv = in_dv;',
